@@ -2396,6 +2396,9 @@ func (w *aWorld) oracleTimeTravel() {
 			"versionTime=1969-12-31T23:59:59Z;x",
 			"versionId=no-such-version%zz",
 			"versionTime=1969-12-31T23:59:59Z%",
+			// the parameter given twice, the first time empty
+			"versionId=&versionId=no-such-version",
+			"versionTime=&versionTime=1969-12-31T23:59:59Z",
 		}
 		raw := raws[w.k.T.Draw(len(raws), "tt.rawquery.which")]
 
